@@ -139,6 +139,13 @@ func momentCheck(label string, f []float64, sp randSpec) {
 	} else {
 		mu, sigma = sp.p0, sp.p1
 	}
+	if sp.kind == 2 {
+		far := 0.
+		for _, v := range f {
+			far = math.Max(far, math.Abs(v-mu))
+		}
+		vrt.Assert(label+": no sample further than 8 sigma from the mean", far <= 8*sigma)
+	}
 	vrt.Assert(label+": sample mean converges to the configured mean", math.Abs(mean-mu) <= 6*sigma/math.Sqrt(n))
 	vrt.Assert(label+": sample deviation converges to the configured one", math.Abs(sd-sigma) <= 6*sigma/math.Sqrt(n))
 	// positions are independent: lag-1 autocorrelation vanishes
@@ -169,16 +176,25 @@ func H_C18_init() {
 	f := vrt.Flat(x)
 	vrt.Assert("element count", len(f) == numel(dims))
 	checkDraws("first call", f, 0, sp)
-	// a second call draws afresh
-	y, err := in.Init(shape)
+	// a second call, with its own shape, draws afresh
+	dims2 := symDims("e", vrt.Concretize(vrt.Int("rank2", 0, r)), vrt.Param("maxdim"))
+	concDims(dims2)
+	y, err := in.Init(append([]int{}, dims2...))
 	vrt.Assert("second call accepted", err == nil)
 	if err != nil || y == nil {
 		return
 	}
+	vrt.Assert("second result has exactly its requested shape", sameDims(vrt.Dims(y), dims2))
 	g := vrt.Flat(y)
+	vrt.Assert("second element count", len(g) == numel(dims2))
 	checkDraws("second call", g, len(f), sp)
 	vrt.Assert("second call returns a new tensor", x != y)
 	if !vrt.Symbolic() && sp.kind != 0 {
+		// draws are fresh on every call, whatever was drawn before: precede the large draw by odd-sized
+		// draws from far-away distributions of both families
+		w := math.Abs(sp.p1-sp.p0) + math.Abs(sp.p1) + 1
+		tensor.RandN([]int{3}, sp.p0+1000*w, w, nil)
+		tensor.RandU([]int{3}, sp.p1+1000*w, sp.p1+1001*w, nil)
 		big, err := in.Init([]int{200, 200})
 		if err == nil && big != nil {
 			momentCheck(name, vrt.Flat(big), sp)
@@ -217,6 +233,9 @@ func H_C18_rand() {
 	vrt.Assert("element count", len(f) == numel(dims))
 	checkDraws("call", f, 0, sp)
 	if !vrt.Symbolic() {
+		w := math.Abs(sp.p1-sp.p0) + math.Abs(sp.p1) + 1
+		tensor.RandN([]int{3}, sp.p0+1000*w, w, nil)
+		tensor.RandU([]int{3}, sp.p1+1000*w, sp.p1+1001*w, nil)
 		var big T
 		if sp.kind == 1 {
 			big, err = tensor.RandU([]int{200, 200}, sp.p0, sp.p1, nil)
